@@ -68,6 +68,7 @@ def plan(tier, seed):
             ch.append({'k': 'cli', 'base': bi, 'opt': opt, 'stride': 7 if tier == 'quick' else 2})
         ch.append({'k': 'small', 'opt': opt})
         ch.append({'k': 'subproc', 'opt': opt, 'base': nb - 4})
+        ch.append({'k': 'dirmodes', 'opt': opt, 'base': nb - 1})
     if tier == 'thorough':
         for opt in (False, True):
             for bi in (1, nb - 4):
@@ -111,6 +112,10 @@ def eval_case(case):
         if 'harness_error' in res:
             raise RuntimeError(res['harness_error'])
         return res['violations']
+    if case.get('dirmodes'):
+        res = ChunkResult()
+        _dirmodes(res, {'base': case['base'], 'opt': case.get('opt')})
+        return [v for v in res.violations if v['case'] == case]
     impl.ensure(False)
     base = pelgen.encode_pel(pelgen.pel_from_spec(bases()[case['base']])) if case.get('base') is not None else b''
     data = deviate(base, case['dev'])
@@ -320,7 +325,42 @@ def _run(res, chunk, k, opt):
                         _do(res, {'base': bi, 'dev': ['set2', o1, v1, o2, v2], 'opt': opt}, every=99991)
     elif k == 'subproc':
         _subproc(res, chunk)
+    elif k == 'dirmodes':
+        _dirmodes(res, chunk)
     return res
+
+
+def _dirmodes(res, chunk):
+    """Several malformed byte strings at once, through every directory mode of the real executable: ordinary errors only,
+    exit status 0 or 1, no traceback, whatever the number of rejected files."""
+    opt = bool(chunk.get('opt'))
+    base = pelgen.encode_pel(pelgen.pel_from_spec(bases()[chunk['base']]))
+    bad_files = [base[:100], base[:71], base[:-1], b'', bytes(range(256)), b'PH' + b'\0' * 70,
+                 base[:2] + b'\xff\xff' + base[4:], base[:50] + b'XX' + base[52:]]
+    for k in (0, 1, 2, 3, 5, 8):
+        with tempfile.TemporaryDirectory(prefix='c05d_', dir=clidrv.odd_root()) as d:
+            os.mkdir(os.path.join(d, 'in'))
+            os.mkdir(os.path.join(d, 'out'))
+            with open(os.path.join(d, 'in', 'good'), 'wb') as f:
+                f.write(base)
+            for i, b in enumerate(bad_files[:k]):
+                with open(os.path.join(d, 'in', 'bad%d' % i), 'wb') as f:
+                    f.write(b)
+            for mode in (['-l'], ['-a'], ['-n'], ['--plid', '500001FF'], ['--src', 'BD8D'], ['-j', '-o', os.path.join(d, 'out')], ['-j'],
+                         ['-a', '-x'], ['-l', '-x']):
+                case = {'dirmodes': True, 'base': chunk['base'], 'opt': opt, 'bad': k, 'mode': [m if not m.startswith('/') else '<out>' for m in mode]}
+                import subprocess
+                try:
+                    rc, so, se = clidrv.run_subprocess(['-p', os.path.join(d, 'in')] + mode + ['-E'], optimize=opt, timeout=20)
+                except subprocess.TimeoutExpired:
+                    res.case(nontrivial_key=json.dumps(case), outcome='dirmodes:hang')
+                    res.violation('C05:cli-hang', '%s with %d malformed file(s) did not terminate within 20 s' % (' '.join(case['mode']), k), case)
+                    continue
+                res.case(nontrivial_key=json.dumps(case), outcome='dirmodes:rc=%s' % rc)
+                if rc not in (0, 1):
+                    res.violation('C05:cli-exit', '%s with %d malformed file(s): exit status %s' % (' '.join(case['mode']), k, rc), case)
+                if 'Traceback (most recent call last)' in se:
+                    res.violation('C05:cli-traceback', '%s with %d malformed file(s): traceback on stderr' % (' '.join(case['mode']), k), case)
 
 
 def _subproc(res, chunk):
